@@ -223,6 +223,120 @@ class Ring:
     def is_zero(self, t):
         return not self.reduce(self.poly(t))
 
+    # --- rational functions: (numerator polynomial, list of denominator factor polynomials) ----
+    def rat(self, t):
+        k = ("rat", t.get_id())
+        if k in self.memo:
+            return self.memo[k][1]
+        r = self._rat(t)
+        self.memo[k] = (t, r)
+        return r
+
+    def _prod(self, polys):
+        r = p_const(1)
+        for q in polys:
+            r = self.reduce(p_mul(r, q))
+        return r
+
+    def _rat(self, t):
+        try:
+            return self.poly(t), []
+        except NotPoly:
+            pass
+        if not z3.is_app(t):
+            raise NotPoly()
+        k = t.decl().kind()
+        ch = t.children()
+        if k in (z3.Z3_OP_ADD, z3.Z3_OP_SUB):
+            parts = [self.rat(c) for c in ch]
+            dens = []
+            for _, d in parts:
+                dens = dens + d
+            num = {}
+            for i, (n, d) in enumerate(parts):
+                other = []
+                for j, (_, d2) in enumerate(parts):
+                    if j != i:
+                        other = other + d2
+                term = self.reduce(p_mul(n, self._prod(other)))
+                num = p_add(num, term, -1 if (k == z3.Z3_OP_SUB and i > 0) else 1)
+            return num, dens
+        if k == z3.Z3_OP_UMINUS:
+            n, d = self.rat(ch[0])
+            return p_mul(p_const(-1), n), d
+        if k == z3.Z3_OP_MUL:
+            num, dens = p_const(1), []
+            for c in ch:
+                n, d = self.rat(c)
+                num = self.reduce(p_mul(num, n))
+                dens = dens + d
+            return num, dens
+        if k == z3.Z3_OP_DIV:
+            n1, d1 = self.rat(ch[0])
+            n2, d2 = self.rat(ch[1])
+            # (n1/d1) / (n2/d2) = n1 * prod(d2) / (d1 * n2)
+            return self.reduce(p_mul(n1, self._prod(d2))), d1 + [n2]
+        if k == z3.Z3_OP_POWER and z3.is_rational_value(ch[1]) and ch[1].denominator_as_long() == 1:
+            e = ch[1].numerator_as_long()
+            n, d = self.rat(ch[0])
+            if 0 <= e <= 16:
+                return self._prod([n] * e), d * e
+        raise NotPoly()
+
+    def _norm(self, q):
+        q = self.reduce(q)
+        if not q:
+            return None
+        lead = min(q)              # a canonical monomial
+        c = q[lead]
+        return frozenset((m, v / c) for m, v in q.items())
+
+    def set_nonzero_polys(self, hyps):
+        self.nz = set()
+        for h in hyps:
+            for c in _conjuncts(h):
+                if not z3.is_app(c):
+                    continue
+                k = c.decl().kind()
+                ch = c.children()
+                pair = None
+                if k in (z3.Z3_OP_GT, z3.Z3_OP_LT, z3.Z3_OP_DISTINCT) and len(ch) == 2:
+                    pair = ch
+                elif k == z3.Z3_OP_NOT and z3.is_app(ch[0]):
+                    k2 = ch[0].decl().kind()
+                    if k2 in (z3.Z3_OP_EQ, z3.Z3_OP_LE, z3.Z3_OP_GE) and len(ch[0].children()) == 2 \
+                            and ch[0].children()[0].sort() == z3.RealSort():
+                        pair = ch[0].children()
+                if pair is None:
+                    continue
+                try:
+                    n = self._norm(p_add(self.poly(pair[0]), self.poly(pair[1]), -1))
+                except NotPoly:
+                    continue
+                if n is not None:
+                    self.nz.add(n)
+
+    def den_nonzero(self, q):
+        q = self.reduce(q)
+        if len(q) == 1 and () in q:
+            return True
+        n = self._norm(q)
+        if n is None:
+            return False
+        if n in self.nz:
+            return True
+        # a product of known-nonzero atoms
+        if len(q) == 1:
+            (m, c), = q.items()
+            return all(self.atoms[v].get_id() in self.nonzero for v, _ in m)
+        return False
+
+    def is_zero_rat(self, t):
+        num, dens = self.rat(t)
+        if self.reduce(num):
+            return False
+        return all(self.den_nonzero(d) for d in dens)
+
 
 def _conjuncts(f):
     if z3.is_and(f):
@@ -273,8 +387,15 @@ def prove_equalities(goal, trig_pairs, hyps, sqrt_pairs=()):
             if not z3.is_eq(c):
                 return None
             a, b = c.children()
-            if not ring.is_zero(a - b):
-                return None
+            try:
+                ok = ring.is_zero(a - b)
+            except NotPoly:
+                ok = False
+            if not ok:
+                if getattr(ring, "nz", None) is None:
+                    ring.set_nonzero_polys(hyps)
+                if not ring.is_zero_rat(a - b):
+                    return None
         return True
     except (NotPoly, RecursionError):
         return None
